@@ -253,7 +253,7 @@ theorem readBody_wf (rd : Order → List UInt8 → GRes) (hrd : RdWF arc rd) (h 
     | ok v1 =>
       obtain ⟨n, b1⟩ := v1
       simp only [h1] at hr
-      by_cases hg : b1.length < n * 16
+      by_cases hg : b1.length < n * 9
       · simp [hg] at hr
       · simp only [hg, if_false] at hr
         cases hN : readN (fun o bs => asChild isSimpleCurve (rd o bs)) n h.order b1 with
